@@ -22,3 +22,15 @@ class IsNonRandExprVisitor(ModelVisitor):
         self._is_nonrand &= not e.fm.is_used_rand
         
         
+
+    def visit_expr_array_sum(self, s):
+        # The sum of a list whose size is being solved for is not a 
+        # constant, even while the list holds no element yet
+        if s.arr.is_rand_sz and s.arr.size.is_used_rand:
+            self._is_nonrand = False
+        super().visit_expr_array_sum(s)
+
+    def visit_expr_array_product(self, s):
+        if s.arr.is_rand_sz and s.arr.size.is_used_rand:
+            self._is_nonrand = False
+        super().visit_expr_array_product(s)
